@@ -483,7 +483,7 @@ def _r4(ctx):
     tree = ctx.tree
     # --- macro definitions
     ctx.saw(MACROS)
-    items = J.flatten(tree, MACROS, {})
+    items = J.propagate_sets(J.flatten(tree, MACROS, {}))        # a size first bound to a `{% set %}` variable is still that expression
     defs = {}
     prev = ""
     for it in items:
